@@ -181,6 +181,34 @@ Definition find_node (st : hstate) (r p : nat) : res (option nat * bool) :=
   | Stuck => Stuck
   end.
 
+(* ------------------------------------------------------------------ abstraction to the functional tree *)
+(* reads the child pointers only; ids are the cell indices *)
+Fixpoint abs_f (fuel : nat) (st : hstate) (i : nat) : option tree :=
+  match fuel with
+  | 0 => None
+  | S f =>
+    match get st i with
+    | None => None
+    | Some c =>
+      match (match c_left c with
+             | None => Some None
+             | Some a => match abs_f f st a with Some t => Some (Some t) | None => None end
+             end) with
+      | None => None
+      | Some l =>
+        match (match c_right c with
+               | None => Some None
+               | Some b => match abs_f f st b with Some t => Some (Some t) | None => None end
+               end) with
+        | None => None
+        | Some r => Some (N i (c_lab c) l r)
+        end
+      end
+    end
+  end.
+
+Definition abs (st : hstate) (i : nat) : option tree := abs_f (S (length (cells st))) st i.
+
 (* ------------------------------------------------------------------ copy.deepcopy(tree) *)
 Fixpoint index_of (x : nat) (l : list nat) : nat :=
   match l with [] => 0 | y :: l' => if Nat.eqb x y then 0 else S (index_of x l') end.
